@@ -352,6 +352,9 @@ def selectSeq (next : Nat) (o : Obj) (keys : List Str) : Except Err (Obj × Nat)
 /-- `GridType.__getitem__(tuple)`: the constructor call puts `self.data` under `attributes["data"]`;
     the final loop re-assigns the very same data objects (Base children only, otherwise `outside`) -/
 def selectGrid (next : Nat) (o : Obj) (keys : List Str) : Except Err (Obj × Nat) := do
+  -- `grid[()]` is an index selecting everything (repaired `GridType.__getitem__`, fix 9f2dbb0), not a selection
+  -- of no children: it belongs to C02/C14, not to this operation alphabet
+  if keys.isEmpty then throw .outside
   if !(visibleOk o.hdr.visible o.kids && allBase o.hdr.visible o.kids) then throw .outside
   let ds ← children o
   let shell := setAttr (mkObj next .grid o.hdr.name o.hdr.attrs .none) [[100], [97], [116], [97]] (.dlist (ds.map (·.hdr.data)))
